@@ -5,6 +5,11 @@ package scheduler
 // (x chain-reorg event), each script executed on the real scheduler.New + Run (real clock, default delay function)
 // over the real eth2wrap.ValidatorCache / eth2wrap.DutiesCache and a scripted beacon-node stub, inside a
 // testing/synctest bubble in virtual time, judged by exact-instant oracles (DESIGN.md §5 C15).
+//
+// WALL-CLOCK STEP dimension: in scripts with a clock step the scheduler reads its wall clock through c15clock (Now / Since /
+// Until = bubble time + offset; After / Sleep / NewTimer / NewTicker / AfterFunc stay on the bubble's monotonic clock), the
+// production delay function stays in the loop and is handed deadline-offset (so that its time.Until reads the stepped clock),
+// the script steps the offset once at an enumerated instant, and every trigger / tick is logged with both clocks.
 
 import (
 	"context"
@@ -17,6 +22,7 @@ import (
 	"strconv"
 	"strings"
 	"sync"
+	"sync/atomic"
 	"testing"
 	"testing/synctest"
 	"time"
@@ -24,6 +30,7 @@ import (
 	eth2api "github.com/attestantio/go-eth2-client/api"
 	eth2v1 "github.com/attestantio/go-eth2-client/api/v1"
 	eth2p0 "github.com/attestantio/go-eth2-client/spec/phase0"
+	"github.com/jonboulle/clockwork"
 	"go.uber.org/zap/zapcore"
 
 	"github.com/obolnetwork/charon/app/errors"
@@ -207,17 +214,54 @@ func c15synDuty(r, idx int) *eth2v1.SyncCommitteeDuty {
 // ---- the script ---------------------------------------------------------------------------------------------------------------
 
 type c15case struct {
-	Table    int   `json:"table"`
-	Start    int   `json:"start_slot_in_epoch"` // the run starts in slot base*4+Start
-	Fail     []int `json:"failing_calls"`       // indices (order of arrival at the node) of the calls that fail once
-	SlowAt   int   `json:"slow_call"`           // index of the slow call, -1 = none
-	SlowHalf int   `json:"slow_half_slots"`     // it takes SlowHalf/2 slot durations
-	Reorg    int   `json:"reorg_in_run_slot"`   // chain-reorg event 5 s into run slot k, -1 = none
+	Table    int      `json:"table"`
+	Start    int      `json:"start_slot_in_epoch"`  // the run starts in slot base*4+Start
+	Fail     []int    `json:"failing_calls"`        // indices (order of arrival at the node) of the calls that fail once
+	SlowAt   int      `json:"slow_call"`            // index of the slow call, -1 = none
+	SlowHalf int      `json:"slow_half_slots"`      // it takes SlowHalf/2 slot durations
+	Reorg    int      `json:"reorg_in_run_slot"`    // chain-reorg event 5 s into run slot k, -1 = none
+	Step     *c15step `json:"clock_step,omitempty"` // one step of the node's wall clock, nil = none (no clock seam installed)
+}
+
+// c15step is one step of the node's wall clock by DeltaMs milliseconds at the instant (At, K):
+//
+//	"before": 250 ms before the start of run slot K      "after": 250 ms after the start of run slot K
+//	"mid":    5.5 s into run slot K (between the attester and the aggregator offset)
+//	"call":   while beacon call #K is in flight: that call takes 1 s and the step happens 0.5 s into it
+type c15step struct {
+	DeltaMs int64  `json:"delta_ms"`
+	At      string `json:"at"`
+	K       int    `json:"k"`
+}
+
+func (s *c15step) delta() time.Duration { return time.Duration(s.DeltaMs) * time.Millisecond }
+
+func (s *c15step) String() string {
+	if s == nil {
+		return "none"
+	}
+	return fmt.Sprintf("%s@%s%d", s.delta(), s.At, s.K)
 }
 
 func (c c15case) String() string {
-	return fmt.Sprintf("table=%d start=%d fail=%v slow=%d@%d reorg=%d", c.Table, c.Start, c.Fail, c.SlowHalf, c.SlowAt, c.Reorg)
+	b := fmt.Sprintf("table=%d start=%d fail=%v slow=%d@%d reorg=%d", c.Table, c.Start, c.Fail, c.SlowHalf, c.SlowAt, c.Reorg)
+	if c.Step != nil {
+		b += " step=" + c.Step.String()
+	}
+	return b
 }
+
+// c15clock is the clock seam of the step scripts: the node's wall clock reading is the bubble's time plus an offset which
+// the script steps once; everything that measures a duration (timers, sleeps) stays on the bubble's monotonic clock, as in
+// the Go runtime, where a timer armed for d fires after d whatever happens to the wall clock.
+type c15clock struct {
+	clockwork.Clock // the real clock of scheduler.New: After, Sleep, NewTimer, NewTicker, AfterFunc
+	off             *atomic.Int64
+}
+
+func (c c15clock) Now() time.Time                  { return time.Now().Add(time.Duration(c.off.Load())) }
+func (c c15clock) Since(t time.Time) time.Duration { return c.Now().Sub(t) }
+func (c c15clock) Until(t time.Time) time.Duration { return t.Sub(c.Now()) }
 
 type c15call struct {
 	Kind  string // val / att / pro / syn
@@ -231,14 +275,16 @@ type c15call struct {
 }
 
 type c15trig struct {
-	At   time.Duration
-	Duty core.Duty
-	Defs map[core.PubKey]string
+	At    time.Duration // monotonic instant (bubble time since the start of the run)
+	Clock time.Duration // the node's wall clock reading at that moment (= At + the offset in force), same origin
+	Duty  core.Duty
+	Defs  map[core.PubKey]string
 }
 
 type c15tick struct {
-	At   time.Duration
-	Slot uint64
+	At    time.Duration
+	Clock time.Duration
+	Slot  uint64
 }
 
 type c15obs struct {
@@ -252,8 +298,10 @@ type c15obs struct {
 	Guard     bool
 	ReorgAt   time.Duration
 	ReorgDone bool
-	Bogus     int // wrong-pubkey duties offered by the node
-	Unasked   int // duties of validators nobody asked for offered by the node
+	Bogus     int           // wrong-pubkey duties offered by the node
+	Unasked   int           // duties of validators nobody asked for offered by the node
+	StepAt    time.Duration // monotonic instant of the clock step
+	StepDone  bool          // false: no step in the script, or its instant (beacon call #K) was never reached
 	Notes     []string
 }
 
@@ -268,6 +316,7 @@ type c15bn struct {
 	obs         *c15obs
 	valCache    *eth2wrap.ValidatorCache
 	dutiesCache *eth2wrap.DutiesCache
+	step        func() // steps the node's wall clock (step scripts)
 }
 
 func (b *c15bn) Address() string { return "c15-stub" }
@@ -315,7 +364,20 @@ func (b *c15bn) enter(ctx context.Context, kind string, epoch int, state string,
 	o.Calls = append(o.Calls, c15call{Kind: kind, Epoch: epoch, State: state, Idxs: idxs, TCall: time.Since(b.t0)})
 	o.mu.Unlock()
 	var err error
-	if n == b.cs.SlowAt && b.cs.SlowHalf > 0 {
+	if st := b.cs.Step; st != nil && st.At == "call" && st.K == n {
+		// the clock is stepped while this call is in flight: the call takes 1 s, the step happens 0.5 s into it
+		for i := 0; i < 2 && err == nil; i++ {
+			select {
+			case <-time.After(500 * time.Millisecond):
+				if i == 0 {
+					b.step()
+				}
+			case <-ctx.Done():
+				err = ctx.Err()
+			}
+		}
+	}
+	if n == b.cs.SlowAt && b.cs.SlowHalf > 0 && err == nil {
 		select {
 		case <-time.After(time.Duration(b.cs.SlowHalf) * c15Dur / 2):
 		case <-ctx.Done():
@@ -481,6 +543,24 @@ func c15run(t *testing.T, cs c15case) *c15obs {
 			obs.Notes = append(obs.Notes, "scheduler.New: "+err.Error())
 			return
 		}
+		var off atomic.Int64 // the node's wall clock = bubble time + off
+		bn.step = func() {
+			obs.mu.Lock()
+			if !obs.StepDone {
+				off.Store(int64(cs.Step.delta()))
+				obs.StepAt, obs.StepDone = time.Since(t0), true
+			}
+			obs.mu.Unlock()
+		}
+		if cs.Step != nil {
+			// clock seam: Scheduler.clock reads the stepped clock; the PRODUCTION delay function (time.After(time.Until(deadline)))
+			// stays in the loop and is handed deadline-offset, i.e. its time.Until measures against the stepped clock
+			s.clock = c15clock{Clock: s.clock, off: &off}
+			prod := s.delayFunc
+			s.delayFunc = func(d core.Duty, deadline time.Time) <-chan time.Time {
+				return prod(d, deadline.Add(-time.Duration(off.Load())))
+			}
+		}
 		guard := make(chan struct{})
 		// Epoch refresh of the caches as wired in app/app.go (validator cache trimmed and refetched for the slot, duties cache
 		// trimmed), run at the first delivered tick of every epoch (and again while the refresh has not succeeded by slot),
@@ -488,7 +568,7 @@ func c15run(t *testing.T, cs c15case) *c15obs {
 		first, byslot, lastEpoch := true, true, uint64(0)
 		s.schedSlotFunc = func(ctx context.Context, slot core.Slot) {
 			obs.mu.Lock()
-			obs.Hooks = append(obs.Hooks, c15tick{time.Since(t0), slot.Slot})
+			obs.Hooks = append(obs.Hooks, c15tick{time.Since(t0), time.Since(t0) + time.Duration(off.Load()), slot.Slot})
 			n := len(obs.Hooks)
 			obs.mu.Unlock()
 			if n == c15TickGuard {
@@ -512,6 +592,7 @@ func c15run(t *testing.T, cs c15case) *c15obs {
 		}
 		s.SubscribeDuties(func(_ context.Context, duty core.Duty, set core.DutyDefinitionSet) error {
 			at := time.Since(t0)
+			clk := at + time.Duration(off.Load())
 			defs := map[core.PubKey]string{}
 			for pk, d := range set {
 				b, err := d.MarshalJSON()
@@ -521,13 +602,13 @@ func c15run(t *testing.T, cs c15case) *c15obs {
 				defs[pk] = string(b)
 			}
 			obs.mu.Lock()
-			obs.Trigs = append(obs.Trigs, c15trig{at, duty, defs})
+			obs.Trigs = append(obs.Trigs, c15trig{at, clk, duty, defs})
 			obs.mu.Unlock()
 			return nil
 		})
 		s.SubscribeSlots(func(_ context.Context, slot core.Slot) error {
 			obs.mu.Lock()
-			obs.Ticks = append(obs.Ticks, c15tick{time.Since(t0), slot.Slot})
+			obs.Ticks = append(obs.Ticks, c15tick{time.Since(t0), time.Since(t0) + time.Duration(off.Load()), slot.Slot})
 			obs.mu.Unlock()
 			return nil
 		})
@@ -541,6 +622,28 @@ func c15run(t *testing.T, cs c15case) *c15obs {
 			}
 		}()
 		stop := make(chan struct{})
+		if st := cs.Step; st != nil && st.At != "call" {
+			// 250 ms before / after a slot start and 5.5 s into a slot: never the instant of a tick, a trigger (0, 4, 8 s into a
+			// slot, shifted by the step itself only afterwards), a call return, the reorg event (5 s) or the stop (11 s)
+			at := c15slotStart(cs, c15startSlot(cs)+uint64(st.K))
+			switch st.At {
+			case "before":
+				at -= 250 * time.Millisecond
+			case "after":
+				at += 250 * time.Millisecond
+			case "mid":
+				at += 5500 * time.Millisecond
+			default:
+				obs.Notes = append(obs.Notes, "unknown clock step instant "+st.At)
+			}
+			go func() {
+				select {
+				case <-time.After(at):
+					bn.step()
+				case <-stop:
+				}
+			}()
+		}
 		if cs.Reorg >= 0 {
 			go func() {
 				select {
@@ -646,8 +749,21 @@ func c15resolvedAt(o *c15obs, epoch int) (time.Duration, bool) {
 
 var c15types = []core.DutyType{core.DutyProposer, core.DutyAttester, core.DutyAggregator, core.DutySyncContribution}
 
-func c15check(cs c15case, o *c15obs) (viol []c15viol, required, excused int) {
-	bad := func(sig, f string, a ...any) { viol = append(viol, c15viol{sig, fmt.Sprintf(f, a...)}) }
+// c15stats: how often the guarded mechanisms fired in one script (non-vacuity)
+type c15stats struct {
+	required      int // completeness requirements checked
+	excused       int // duty of validator 3 before its activation, after the node itself had reported it active
+	earlyStepOnly int // trigger early by the stepped clock, on time by the clock without the (backward) step: counted, not alarmed
+	onTimeByNode  int // trigger on time by the node's (forward-stepped) clock although before the offset in monotonic time
+}
+
+func c15check(cs c15case, o *c15obs) (viol []c15viol, st c15stats) {
+	dim := ""
+	if cs.Step != nil {
+		dim = " dim=clock-step"
+	}
+	bad := func(sig, f string, a ...any) { viol = append(viol, c15viol{sig + dim, fmt.Sprintf(f, a...)}) }
+	strict := os.Getenv("C15_STRICT_STEP_CLOCK") != "" // information only: alarm on the stepped clock alone
 	// toldActive: the node itself had already reported validator 3 as active (a validators answer for a state in its
 	// activation epoch or later, e.g. the "head" fallback answered while a late tick of an earlier epoch is processed).
 	// From then on the scheduler cannot tell that 3 was not yet active in the earlier epoch it is still working on; only the
@@ -657,6 +773,34 @@ func c15check(cs c15case, o *c15obs) (viol []c15viol, required, excused int) {
 			if c.Kind == "val" && c.Done && c.OK && c.Epoch >= c15Base+2 && c.TRet <= at && c15has(c.Idxs, 3) {
 				return true
 			}
+		}
+		return false
+	}
+	// staleStatus names the cause of one specific way of losing validator 3 (label of the signature only, the verdict does not
+	// depend on it): the duty's epoch is LATER than 3's activation epoch, the node was asked for that epoch's duties without 3,
+	// and the latest validators answer the scheduler had at that moment was for a state BEFORE the activation epoch (3 still
+	// pending, activation epoch in the answer) - resolveActiveValidators keeps a pending validator only if its activation epoch
+	// EQUALS the requested epoch. Needs the node's clock at least an epoch ahead of the beacon node's head.
+	staleStatus := func(tr c15trig) bool {
+		epoch := int(tr.Duty.Slot) / c15SPE
+		if epoch <= c15Base+2 {
+			return false
+		}
+		kind := map[core.DutyType]string{core.DutyAttester: "att", core.DutyAggregator: "att", core.DutyProposer: "pro", core.DutySyncContribution: "syn"}[tr.Duty.Type]
+		for _, c := range o.Calls {
+			if c.Kind != kind || c.Epoch != epoch || !c.Done || !c.OK || c.TRet > tr.At {
+				continue
+			}
+			if c15has(c.Idxs, 3) {
+				return false
+			}
+			last := -1
+			for i, v := range o.Calls {
+				if v.Kind == "val" && v.Done && v.OK && v.TRet <= c.TCall {
+					last = i
+				}
+			}
+			return last >= 0 && o.Calls[last].Epoch < c15Base+2
 		}
 		return false
 	}
@@ -683,7 +827,7 @@ func c15check(cs c15case, o *c15obs) (viol []c15viol, required, excused int) {
 			case idx == 9 || idx == 0:
 				bad("kind=triggered-for-foreign-validator type="+typ, "duty %s at %s carries a definition for validator %d (pubkey %s) which is not in the cluster: %s", tr.Duty, tr.At, idx, pk, tr.Defs[pk])
 			case idx == 3 && r < 2 && toldActive(tr.At):
-				excused++
+				st.excused++
 			case idx == 4 || (idx == 3 && r < 2):
 				bad(fmt.Sprintf("kind=triggered-for-inactive-validator type=%s validator=%d", typ, idx), "duty %s at %s carries a definition for validator %d which is not active in epoch %d: %s", tr.Duty, tr.At, idx, int(tr.Duty.Slot)/c15SPE, tr.Defs[pk])
 			case !assigned:
@@ -694,32 +838,76 @@ func c15check(cs c15case, o *c15obs) (viol []c15viol, required, excused int) {
 		}
 		for pk := range exp {
 			if _, ok := tr.Defs[pk]; !ok {
-				bad("kind=definition-set-incomplete type="+typ, "duty %s at %s was triggered without the definition of active cluster validator %d which the beacon node assigns to that slot (got %d of %d definitions)", tr.Duty, tr.At, c15idxOf(pk), len(tr.Defs), len(exp))
+				cause := ""
+				if c15idxOf(pk) == 3 && staleStatus(tr) {
+					cause = " cause=validator-status-answer-older-than-the-activation-epoch-which-is-before-the-requested-epoch"
+				}
+				bad("kind=definition-set-incomplete type="+typ+cause, "duty %s at %s was triggered without the definition of active cluster validator %d which the beacon node assigns to that slot (got %d of %d definitions)", tr.Duty, tr.At, c15idxOf(pk), len(tr.Defs), len(exp))
 				break
 			}
 		}
-		if earliest := c15slotStart(cs, tr.Duty.Slot) + c15offset(tr.Duty.Type); tr.At < earliest {
-			bad("kind=triggered-before-offset type="+typ, "duty %s was triggered at %s, its slot starts at %s and the %s offset is %s", tr.Duty, tr.At, c15slotStart(cs, tr.Duty.Slot), typ, c15offset(tr.Duty.Type))
+		// "not before its time" is judged on the node's own clock at the moment of the trigger (without a step: Clock == At).
+		// Across a BACKWARD step the statement does not say which clock is the reference: a trigger that is early by the stepped
+		// clock but on time by the clock without the step (the time line on which its timer was armed) is counted, not alarmed;
+		// only a trigger that is early on both time lines is a violation.
+		earliest := c15slotStart(cs, tr.Duty.Slot) + c15offset(tr.Duty.Type)
+		switch {
+		case tr.Clock >= earliest:
+			if tr.At < earliest {
+				st.onTimeByNode++
+			}
+		case tr.At >= earliest && !strict:
+			st.earlyStepOnly++
+		default:
+			bad("kind=triggered-before-offset type="+typ, "duty %s was triggered at %s (the node's clock read %s), its slot starts at %s and the %s offset is %s", tr.Duty, tr.At, tr.Clock, c15slotStart(cs, tr.Duty.Slot), typ, c15offset(tr.Duty.Type))
 		}
 	}
 	// ---- completeness (scripts without a reorg event) ----
 	if cs.Reorg >= 0 {
-		return viol, 0, excused
+		return viol, st
 	}
-	ticked := map[uint64]bool{}
+	ticked := map[uint64]time.Duration{} // slot -> monotonic instant of the (first) delivery of its tick
 	for _, tk := range o.Ticks {
-		ticked[tk.Slot] = true
+		if at, ok := ticked[tk.Slot]; !ok || tk.At < at {
+			ticked[tk.Slot] = tk.At
+		}
 	}
-	for slot := range ticked {
+	for slot, tickAt := range ticked {
 		epoch := int(slot) / c15SPE
 		at, ok := c15resolvedAt(o, epoch)
 		start := c15slotStart(cs, slot)
-		if !ok || !(start > at) {
-			continue // not resolved, or resolved in/after this very slot: triggering allowed, not required
+		if !ok {
+			continue // never resolved
+		}
+		end := start + c15Dur
+		if cs.Step == nil {
+			if !(start > at) {
+				continue // resolved in/after this very slot: triggering allowed, not required
+			}
+		} else {
+			// A step makes ticks early, late or swallows them (a swallowed slot has no tick, like a missed tick), so "the slot
+			// begins after the epoch was resolved" is read off the delivery of its tick: strictly after T in monotonic time ...
+			if !(tickAt > at) {
+				continue
+			}
+			// ... and the slot is later than every slot the scheduler had begun scheduling up to T (resolution drops the
+			// duties of slots before the resolving one)
+			begun := false
+			for _, h := range o.Hooks {
+				begun = begun || (h.At <= at && h.Slot >= slot)
+			}
+			if begun {
+				continue
+			}
+			// ended for good: on the time line without the step and on the stepped one (a backward step moves the slot's
+			// end, on the node's clock, |delta| later in monotonic time)
+			if d := cs.Step.delta(); o.StepDone && d < 0 {
+				end += -d
+			}
 		}
 		// the run was stopped at StopAt: only slots that had ended by then and whose scheduling had demonstrably finished
 		// (a later slot was already being scheduled before the stop) are required
-		if start+c15Dur > o.StopAt {
+		if end > o.StopAt {
 			continue
 		}
 		later := false
@@ -734,18 +922,18 @@ func c15check(cs c15case, o *c15obs) (viol []c15viol, required, excused int) {
 			if len(exp) == 0 {
 				continue
 			}
-			required++
+			st.required++
 			if seen[core.Duty{Slot: slot, Type: typ}] == 0 {
 				var vals []int
 				for pk := range exp {
 					vals = append(vals, c15idxOf(pk))
 				}
 				sort.Ints(vals)
-				bad("kind=resolved-duty-not-triggered type="+typ.String(), "duty %d/%s (validators %v) was never triggered although the slot tick was delivered and the slot starts at %s, after epoch %d was resolved at %s", slot, typ, vals, start, epoch, at)
+				bad("kind=resolved-duty-not-triggered type="+typ.String(), "duty %d/%s (validators %v) was never triggered although the slot tick was delivered (at %s) and the slot starts at %s, after epoch %d was resolved at %s", slot, typ, vals, tickAt, start, epoch, at)
 			}
 		}
 	}
-	return viol, required, excused
+	return viol, st
 }
 
 // ---- driver -------------------------------------------------------------------------------------------------------------------------------------------
@@ -783,6 +971,9 @@ func c15key(cs c15case, o *c15obs) string {
 	if cs.Reorg >= 0 {
 		k += fmt.Sprintf("/reorg=%d", cs.Reorg)
 	}
+	if cs.Step != nil {
+		k += "/step=" + cs.Step.String()
+	}
 	return k
 }
 
@@ -793,9 +984,14 @@ func c15describe(cs c15case, o *c15obs) string {
 		fmt.Fprintf(&sb, "  call#%d %s epoch=%d state=%q idxs=%v at=%s ret=%s ok=%v\n", i, c.Kind, c.Epoch, c.State, c.Idxs, c.TCall, c.TRet, c.OK)
 	}
 	tks := append([]c15tick(nil), o.Ticks...)
-	sort.SliceStable(tks, func(i, j int) bool { return tks[i].At < tks[j].At || (tks[i].At == tks[j].At && tks[i].Slot < tks[j].Slot) })
+	sort.SliceStable(tks, func(i, j int) bool {
+		return tks[i].At < tks[j].At || (tks[i].At == tks[j].At && tks[i].Slot < tks[j].Slot)
+	})
 	for _, tk := range tks {
-		fmt.Fprintf(&sb, "  tick slot=%d at=%s (slot start %s)\n", tk.Slot, tk.At, c15slotStart(cs, tk.Slot))
+		fmt.Fprintf(&sb, "  tick slot=%d at=%s node-clock=%s (slot start %s)\n", tk.Slot, tk.At, tk.Clock, c15slotStart(cs, tk.Slot))
+	}
+	if cs.Step != nil {
+		fmt.Fprintf(&sb, "  clock step %s: done=%v at=%s\n", cs.Step, o.StepDone, o.StepAt)
 	}
 	if o.ReorgDone {
 		fmt.Fprintf(&sb, "  reorg event at=%s\n", o.ReorgAt)
@@ -816,7 +1012,7 @@ func c15describe(cs c15case, o *c15obs) string {
 			l = append(l, fmt.Sprintf("v%d=%s", c15idxOf(pk), d))
 		}
 		sort.Strings(l)
-		fmt.Fprintf(&sb, "  trigger %s at=%s {%s}\n", x.Duty, x.At, strings.Join(l, " "))
+		fmt.Fprintf(&sb, "  trigger %s at=%s node-clock=%s {%s}\n", x.Duty, x.At, x.Clock, strings.Join(l, " "))
 	}
 	return sb.String()
 }
@@ -838,7 +1034,8 @@ func TestVerifC15(t *testing.T) {
 				fmt.Printf("NONDETERMINISTIC\n%s\n---\n%s\n", a, b)
 			}
 		}
-		viol, required, excused := c15check(cs, o)
+		viol, st := c15check(cs, o)
+		required, excused := st.required, st.excused
 		r.Eval(c15key(cs, o))
 		r.Steps(len(o.Hooks) + len(o.Calls))
 		// non-vacuity
@@ -854,13 +1051,49 @@ func TestVerifC15(t *testing.T) {
 			if tk.Slot > maxSlot {
 				maxSlot = tk.Slot
 			}
-			if tk.At > c15slotStart(cs, tk.Slot) && tk.Slot != c15startSlot(cs) {
+			if tk.Clock > c15slotStart(cs, tk.Slot) && tk.Slot != c15startSlot(cs) { // by the node's clock (== At without a step)
 				r.Count("slot_ticks_delivered_late", 1)
 			}
 		}
+		skipped := 0
 		for s := c15startSlot(cs); s < maxSlot; s++ {
 			if !delivered[s] {
-				r.Count("slot_ticks_skipped", 1)
+				skipped++
+			}
+		}
+		r.Count("slot_ticks_skipped", skipped)
+		if cs.Step != nil { // non-vacuity of the wall-clock step dimension
+			r.Count("clock_step_scripts", 1)
+			switch d := cs.Step.delta(); {
+			case !o.StepDone:
+				r.Count("clock_step_instant_not_reached_call_never_made", 1)
+			case d > 0:
+				r.Count("clock_steps_applied_forward", 1)
+			default:
+				r.Count("clock_steps_applied_backward", 1)
+			}
+			if o.StepDone && cs.Step.At == "call" {
+				r.Count("clock_steps_applied_while_beacon_call_in_flight", 1)
+			}
+			r.Count("clock_step_slot_ticks_skipped", skipped)
+			r.Count("clock_step_completeness_requirements_checked", required)
+			r.Count("clock_step_triggers_early_by_stepped_clock_only", st.earlyStepOnly)
+			r.Count("clock_step_triggers_on_time_by_node_clock_before_offset_in_monotonic_time", st.onTimeByNode)
+			for _, tk := range o.Ticks {
+				if o.StepDone && tk.At >= o.StepAt {
+					r.Count("clock_step_ticks_after_step", 1)
+					switch start := c15slotStart(cs, tk.Slot); {
+					case tk.Clock < start:
+						r.Count("clock_step_ticks_early_by_node_clock", 1)
+					case tk.Clock > start:
+						r.Count("clock_step_ticks_late_by_node_clock", 1)
+					}
+				}
+			}
+			for _, tr := range o.Trigs {
+				if o.StepDone && tr.At >= o.StepAt {
+					r.Count("clock_step_triggers_after_step", 1)
+				}
 			}
 		}
 		for _, f := range cs.Fail {
@@ -883,7 +1116,7 @@ func TestVerifC15(t *testing.T) {
 			if at, ok := c15resolvedAt(o, int(tr.Duty.Slot)/c15SPE); !ok || at >= c15slotStart(cs, tr.Duty.Slot) {
 				r.Count("triggers_in_or_before_resolving_slot", 1)
 			}
-			if tr.At > c15slotStart(cs, tr.Duty.Slot)+c15offset(tr.Duty.Type) {
+			if tr.Clock > c15slotStart(cs, tr.Duty.Slot)+c15offset(tr.Duty.Type) {
 				r.Count("triggers_delayed_past_offset", 1)
 			}
 		}
@@ -905,7 +1138,7 @@ func TestVerifC15(t *testing.T) {
 			}
 			ok := true
 			for k := 0; k < 3; k++ {
-				v2, _, _ := c15check(cs, c15run(t, cs))
+				v2, _ := c15check(cs, c15run(t, cs))
 				hit := false
 				for _, y := range v2 {
 					hit = hit || y.sig == v.sig
@@ -956,7 +1189,14 @@ func TestVerifC15(t *testing.T) {
 	}
 	reorgs := []int{-1, 2, 3, 7}
 	sampled := 0
+	only := os.Getenv("C15_ONLY") // debugging aid: "base" = without the clock-step scripts, "step" = only those
+	if only != "" {
+		r.NotExhaustive("C15_ONLY=" + only + ": part of the product was left out on request")
+	}
 	for ti := range c15tables() {
+		if only == "step" {
+			break
+		}
 		for _, start := range []int{0, 1, c15SPE - 1} {
 			for _, reorg := range reorgs {
 				for _, f := range fails {
@@ -973,6 +1213,68 @@ func TestVerifC15(t *testing.T) {
 							sampled++
 							r.Sample(cs.String())
 						}
+					}
+				}
+			}
+		}
+	}
+	if only == "base" {
+		return
+	}
+
+	// ---- wall-clock steps: one step of delta at an enumerated instant, combined with the other dimensions ----
+	var steps []c15step
+	for _, d := range []time.Duration{-c15SPE * c15Dur, -c15Dur * 3 / 2, -c15Dur / 2, -time.Millisecond, time.Millisecond, c15Dur / 2, c15Dur * 3 / 2, c15SPE * c15Dur} {
+		ms := d.Milliseconds()
+		for k := 1; k < c15RunSlots; k++ {
+			steps = append(steps, c15step{ms, "before", k})
+		}
+		for k := 1; k < c15RunSlots; k++ {
+			steps = append(steps, c15step{ms, "after", k})
+		}
+		for k := 0; k < c15RunSlots; k++ {
+			steps = append(steps, c15step{ms, "mid", k}) // 5.5 s into the slot
+		}
+		for c := 0; c < c15MaxCalls; c++ {
+			steps = append(steps, c15step{ms, "call", c})
+		}
+	}
+	type comboT struct {
+		fail  []int
+		slow  slowT
+		reorg int
+	}
+	stepSampled := false
+	for ti := range c15tables() {
+		combos := []comboT{{nil, slowT{-1, 0}, -1}} // the step alone
+		if th || ti == 0 {
+			for a := 0; a < c15MaxCalls; a++ { // x one failing call
+				combos = append(combos, comboT{[]int{a}, slowT{-1, 0}, -1})
+			}
+		}
+		if th {
+			for _, sl := range slows[1:] { // x one slow call
+				combos = append(combos, comboT{nil, sl, -1})
+			}
+			for _, ro := range reorgs[1:] { // x reorg event (safety clauses only)
+				combos = append(combos, comboT{nil, slowT{-1, 0}, ro})
+			}
+		}
+		for _, start := range []int{0, 1, c15SPE - 1} {
+			for _, cb := range combos {
+				for i := range steps {
+					if !r.Mine() {
+						continue
+					}
+					if r.Expired() {
+						return
+					}
+					st := steps[i]
+					cs := c15case{Table: ti, Start: start, Fail: cb.fail, SlowAt: cb.slow.at, SlowHalf: cb.slow.half, Reorg: cb.reorg, Step: &st}
+					judge(cs, false)
+					if !stepSampled && len(cb.fail) > 0 {
+						stepSampled = true
+						r.Sample(cs.String())
 					}
 				}
 			}
